@@ -51,6 +51,27 @@ def h_ffx(P, X):
                  X.eq(z.value, x), X.eq(z2.value, x))
 
 
+def h_ffx_reuse(P, X):
+    """ONE cipher object used for two widths under one key (wider block first, then the narrower one, then the wider
+    one again): every result keeps the width of its own input and decrypt inverts encrypt"""
+    from toolkit.bits import Bitset
+    from toolkit.symmetric_encryption.fpe import BitwiseFFX
+    n1, n2 = P["n1"], P["n2"]
+    f = X.call(BitwiseFFX)
+    x1, x2, x3 = X.int("x1", n1), X.int("x2", n2), X.int("x3", n1)
+    y1 = X.method(f, "encrypt", KEY, X.call(Bitset, x1, n1))
+    if P.get("twin"):
+        return False
+    y2 = X.method(f, "encrypt", KEY, X.call(Bitset, x2, n2))
+    z2 = X.method(f, "decrypt", KEY, y2)
+    y3 = X.method(f, "encrypt", KEY, X.call(Bitset, x3, n1))
+    z3_ = X.method(f, "decrypt", KEY, y3)
+    z1 = X.method(f, "decrypt", KEY, y1)
+    return X.all(X.eq(y1.length, n1), X.eq(y2.length, n2), X.eq(y3.length, n1), X.eq(z2.length, n2),
+                 X.ult(y2.value, 1 << n2), X.ult(y3.value, 1 << n1),
+                 X.eq(z1.value, x1), X.eq(z2.value, x2), X.eq(z3_.value, x3))
+
+
 def h_fpeprp(P, X):
     """BitwiseFPEPRP: delegates to the cipher, keeps the length, refuses wrong key/message bit lengths"""
     from toolkit.bits import Bitset
@@ -137,6 +158,11 @@ def obligations(tier, seed):
         W = max(2 * n, n + 170) + 16
         obs.append(ob("c15.ffx.%d" % n, M, "h_ffx", {"n": n, "W": W, "seed": seed}, engine="bvx",
                       budget_s=600, per_path_s=300, selftest=3, cross=(not q and n <= 33)))
+    for n1, n2 in ((6, 5), (9, 4)) if q else ((6, 5), (9, 4), (10, 9), (17, 16), (33, 8)):
+        W = max(2 * n1, n1 + 170) + 16
+        obs.append(ob("c15.ffx_reuse.%d.%d" % (n1, n2), M, "h_ffx_reuse", {"n1": n1, "n2": n2, "W": W, "seed": seed},
+                      engine="bvx", budget_s=600, per_path_s=300, selftest=2))
+    obs.append(twin("c15.ffx_reuse.twin", M, "h_ffx_reuse", {"n1": 6, "n2": 5, "W": 200, "twin": True}, engine="bvx"))
     for n, kb in ((4, 128), (16, 192), (33, 256)) if q else ((2, 128), (4, 128), (16, 192), (33, 256), (64, 192), (130, 256)):
         W = max(2 * n, n + 170, kb + 8) + 16
         obs.append(ob("c15.fpeprp.%d.%d" % (n, kb), M, "h_fpeprp", {"n": n, "kbits": kb, "W": W, "seed": seed},
